@@ -203,7 +203,7 @@ func runC20(c *Ctx, r *Report, tier string) {
 		for b := range cl.Blocks {
 			if iff, ok := b.Instrs[len(b.Instrs)-1].(*ssa.If); ok {
 				l := c.cond(iff.Cond)
-				if strings.HasPrefix(l.Term, "lt(phi{") && strings.HasSuffix(l.Term, ", 0)") || strings.HasPrefix(l.Term, "eq(0, phi{") || strings.HasPrefix(l.Term, "eq(0, rangeindex") {
+				if strings.HasPrefix(l.Term, "lt(phi{") && strings.HasSuffix(l.Term, ", 0)") || strings.HasPrefix(l.Term, "eq(0, phi{") || strings.HasPrefix(l.Term, "eq(0, rangeindex") || l.Term == "nonzero(phi{(phi↺ + 1) | 0})" {
 					firstTest = true
 				}
 			}
@@ -253,7 +253,33 @@ func runC20(c *Ctx, r *Report, tier string) {
 			if t == `""` {
 				continue
 			}
-			r.Check(strings.HasPrefix(t, "idx(P1, phi{"), "MINIMUM", cn, "result is choices[best]", c.ipos(ret), "returns the candidate at the best index", "returns "+trunc(t, 80))
+			okRes := strings.HasPrefix(t, "idx(P1, phi{")
+			if sp, isPhi := c.resolve(ret.Results[0]).(*ssa.Phi); !okRes && isPhi && sp.Block() == cl.Header {
+				// equivalent form: the best candidate itself is remembered, updated on exactly the edges that update the minimum
+				upd := func(p *ssa.Phi) string {
+					var s []string
+					for i, e := range p.Edges {
+						if cl.Blocks[p.Block().Preds[i]] && c.resolve(e) != ssa.Value(p) {
+							s = append(s, fmt.Sprintf("b%d", p.Block().Preds[i].Index))
+						}
+					}
+					return strings.Join(s, ",")
+				}
+				okRes = true
+				for i, e := range sp.Edges {
+					if cl.Blocks[sp.Block().Preds[i]] && c.resolve(e) != ssa.Value(sp) && c.term(e) != "idx(P1, phi{(phi↺ + 1) | 0})" {
+						okRes = false
+					}
+				}
+				same := false
+				for _, in := range cl.Header.Instrs {
+					if dp, ok := in.(*ssa.Phi); ok && relType(c, dp.Type()) == "int" && dp != sp && strings.Contains(c.term(dp), "call:levenshtein(") && upd(dp) == upd(sp) && upd(sp) != "" {
+						same = true
+					}
+				}
+				okRes = okRes && same
+			}
+			r.Check(okRes, "MINIMUM", cn, "result is choices[best]", c.ipos(ret), "returns the candidate at the best index (or the candidate remembered together with the minimum)", "returns "+trunc(t, 80))
 		}
 	}
 
